@@ -67,11 +67,11 @@ func (s *Server) Initialize(ctx context.Context, params *lsp.InitializeParams) (
 
 func (s *Server) DidOpen(ctx context.Context, params *lsp.DidOpenTextDocumentParams) error {
 	s.logger.Info("opened",
-		zap.String("filename", params.TextDocument.URI.Filename()),
+		zap.String("filename", docName(params.TextDocument.URI)),
 		zap.Uint32("version", uint32(params.TextDocument.Version)),
 		zap.String("lang", string(params.TextDocument.LanguageID)))
 
-	filename := params.TextDocument.URI.Filename()
+	filename := docName(params.TextDocument.URI)
 	content := params.TextDocument.Text
 	s.docs[filename] = &document{
 		version: uint32(params.TextDocument.Version),
@@ -81,12 +81,12 @@ func (s *Server) DidOpen(ctx context.Context, params *lsp.DidOpenTextDocumentPar
 }
 
 func (s *Server) DidSave(ctx context.Context, params *lsp.DidSaveTextDocumentParams) error {
-	s.logger.Info("saved", zap.String("filename", params.TextDocument.URI.Filename()))
+	s.logger.Info("saved", zap.String("filename", docName(params.TextDocument.URI)))
 	return nil
 }
 
 func (s *Server) DidChange(ctx context.Context, params *lsp.DidChangeTextDocumentParams) error {
-	filename := params.TextDocument.URI.Filename()
+	filename := docName(params.TextDocument.URI)
 	if len(params.ContentChanges) == 0 {
 		// Nothing has changed.
 		return nil
@@ -100,17 +100,17 @@ func (s *Server) DidChange(ctx context.Context, params *lsp.DidChangeTextDocumen
 }
 
 func (s *Server) DidClose(ctx context.Context, params *lsp.DidCloseTextDocumentParams) error {
-	filename := params.TextDocument.URI.Filename()
+	filename := docName(params.TextDocument.URI)
 	delete(s.docs, filename)
-	s.logger.Info("closed", zap.String("filename", params.TextDocument.URI.Filename()))
+	s.logger.Info("closed", zap.String("filename", docName(params.TextDocument.URI)))
 	return nil
 }
 
 func (s *Server) typecheck(ctx context.Context, uri lsp.DocumentURI, version uint32, content string) error {
 	var res []lsp.Diagnostic
 
-	_, err := compiler.Compile(ctx, uri.Filename(), content, compiler.Params{CheckOnly: true, Verbose: true})
-	for _, p := range problems(err, uri.Filename(), content) {
+	_, err := compiler.Compile(ctx, docName(uri), content, compiler.Params{CheckOnly: true, Verbose: true})
+	for _, p := range problems(err, docName(uri), content) {
 		rng, _, _ := strings.Cut(content[p.Origin.Offset:p.Origin.EndOffset], "\n")
 		res = append(res, lsp.Diagnostic{
 			Range: lsp.Range{
@@ -162,10 +162,21 @@ func problems(err error, filename, content string) status.Status {
 	return ret
 }
 
+// docName returns the key under which a document is stored: the file name for file:// URIs, the URI
+// itself for everything else (URI.Filename panics on non-file URIs, e.g. "untitled:Untitled-1").
+func docName(u lsp.DocumentURI) (ret string) {
+	defer func() {
+		if recover() != nil {
+			ret = string(u)
+		}
+	}()
+	return u.Filename()
+}
+
 func keepGoing(err tm.SyntaxError) bool { return true }
 
 func (s *Server) Definition(ctx context.Context, params *lsp.DefinitionParams) (result []lsp.Location, err error) {
-	filename := params.TextDocument.URI.Filename()
+	filename := docName(params.TextDocument.URI)
 	doc := s.docs[filename]
 	if doc == nil {
 		return nil, fmt.Errorf("%s is not opened", filename)
